@@ -2,6 +2,7 @@
 
 mod util;
 mod c01;
+mod c02;
 mod c03;
 mod c04;
 mod c11;
@@ -15,6 +16,7 @@ mod c20;
 fn main() {
     vcore::main_for(|id| match id {
         "C01" => Some(c01::check()),
+        "C02" => Some(c02::check()),
         "C03" => Some(c03::check()),
         "C04" => Some(c04::check()),
         "C11" => Some(c11::check()),
